@@ -41,7 +41,7 @@ def setup():
 def run(run, tier, seed, replay_case=None):
     C.build_lib("asan")
     impl = C.build_driver("C03", flavour="asan")
-    pr = C.coq_properties(PROP, extra_targets=["C03/Extract.vo"])
+    pr = C.coq_properties(PROP, dirs=["C03", "lib"], extra_targets=["C03/Extract.vo"])
     run.add_proof(pr, CHECKER)
     run.coverage["trusted_base"] = TRUSTED
     model = C.build_model(PROP)
